@@ -370,6 +370,103 @@ def c03_z3str(R):
     R.need(n >= 3, "Z3 string boundary sites not found")
 
 
+# the escape forms Z3's string-literal reader interprets (SMT-LIB 2.6 strings theory: \ud3d2d1d0 and \u{d..})
+_Z3_ESCAPE_WITNESSES = ("\\u0041", "\\u{41}", "\\u{1f600}", "\\ud83d", "\\u{0}")
+
+
+def _module_regex(m, name):
+    for st in m.tree.body:
+        if isinstance(st, ast.Assign) and any(isinstance(t, ast.Name) and t.id == name for t in st.targets):
+            v = st.value
+            if isinstance(v, ast.Call) and (dotted(v.func) or "") in ("re.compile", "compile") and v.args:
+                p = v.args[0]
+                if isinstance(p, ast.Constant) and isinstance(p.value, str):
+                    return p.value
+    return None
+
+
+@rule(
+    "C03.escape",
+    props=("C03", "C26"),
+    floor=1,
+    family="TAB",
+    desc="the encoder applied at the Z3 string boundary neutralises every backslash Z3 would read as the start of an "
+    "escape: each return of _z3_string_encode rewrites all backslashes, or rewrites with a pattern whose language "
+    "(a literal of the module) covers both escape forms Z3 reads (\\uXXXX and \\u{X..})",
+)
+def c03_escape(R):
+    import re as _re
+    import re._parser as _rp
+
+    tree = R.tree
+    m = tree.mod(Z3)
+    fn = m.functions.get("_z3_string_encode")
+    R.need(fn is not None, "_z3_string_encode not found (anchor vanished)")
+    params = positional_params(fn)
+    R.need(len(params) == 1, "_z3_string_encode no longer takes exactly the string")
+    s = params[0]
+    rets = [x for x in walk_no_nested(fn) if isinstance(x, ast.Return)]
+    R.need(rets, "_z3_string_encode has no return")
+
+    def bare_backslash(pat):
+        try:
+            parsed = list(_rp.parse(pat))
+        except Exception:
+            return False
+        return len(parsed) == 1 and str(parsed[0][0]) == "LITERAL" and parsed[0][1] == 92
+
+    for r in rets:
+        v = r.value
+        if isinstance(v, ast.Name) and v.id == s:
+            facts = [(ast.unparse(t), pol) for t, pol in guards.guards_of(r)]
+            ok = any(t in (f"'\\\\' not in {s}", f'"\\\\" not in {s}') and pol for t, pol in facts) or any(
+                t in (f"'\\\\' in {s}",) and not pol for t, pol in facts
+            )
+            R.check(
+                ok,
+                m,
+                r,
+                "the string is returned unchanged only when it contains no backslash",
+                f"_z3_string_encode returns the caller's string unchanged under {facts}: a backslash sequence in it "
+                f"is interpreted by Z3",
+            )
+            continue
+        pat = None
+        if isinstance(v, ast.Call) and isinstance(v.func, ast.Attribute) and v.func.attr == "replace" and len(v.args) == 2:
+            a = v.args[0]
+            if isinstance(a, ast.Constant) and a.value == "\\" and norm(v.func.value) == s:
+                b = v.args[1]
+                good = isinstance(b, ast.Constant) and isinstance(b.value, str) and _re.fullmatch(r"\\u\{0*5[cC]\}", b.value)
+                R.check(
+                    bool(good),
+                    m,
+                    r,
+                    "every backslash is rewritten to the escape of the backslash itself",
+                    f"_z3_string_encode replaces a backslash by `{norm(b)}`, which Z3 does not read back as one backslash",
+                )
+                continue
+        if isinstance(v, ast.Call) and isinstance(v.func, ast.Attribute) and v.func.attr == "sub":
+            base = dotted(v.func.value) or ""
+            if base == "re" and v.args and isinstance(v.args[0], ast.Constant):
+                pat = v.args[0].value
+            elif isinstance(v.func.value, ast.Name):
+                pat = _module_regex(m, v.func.value.id)
+        R.need(pat is not None, f"_z3_string_encode returns `{norm(v)}`: not an escape rewrite this rule can interpret")
+        if bare_backslash(pat):
+            R.ok(m, r, "every backslash is rewritten (pattern is the bare backslash)")
+            continue
+        cp = _re.compile(pat)
+        missed = [w for w in _Z3_ESCAPE_WITNESSES if not cp.match(w)]
+        R.check(
+            not missed,
+            m,
+            r,
+            "the rewrite pattern covers every escape form Z3 reads",
+            f"_z3_string_encode only rewrites text matching {pat!r}; Z3 also reads {missed} as escapes, so a "
+            f"caller's string containing such a sequence reaches the solver as different characters",
+        )
+
+
 @rule(
     "C03.parse",
     props=("C03",),
